@@ -147,7 +147,7 @@ def run(name, ids, tier='quick'):
                 except Exception:
                     pass
             results[i + ':' + tier] = {'exit': rc, 'detected': rc == 1 and any(l.startswith('VIOLATION') for l in lines),
-                                       'lines': lines[:4], 'what': what, 'seconds': round(time.time() - t0, 1),
+                                       'lines': ([l for l in lines if l.startswith('VIOLATION')] + [l[:160] for l in lines if not l.startswith('VIOLATION')])[:4], 'what': what, 'seconds': round(time.time() - t0, 1),
                                        'tail': out.strip().splitlines()[-1:] if rc not in (0, 1) else []}
             print(i, tier, 'exit', rc, lines[:2], what)
     finally:
